@@ -501,12 +501,17 @@ def _big_task(task):
         if kind == "maxsize":
             pkts = [framing.mk_packet(bytes((i * 7 + 3) & 0xFF for i in range(65536)), apid=5, seqcount=9),
                     framing.mk_packet(b"\x01", apid=6)]
+        elif kind == "many":
+            # the NUMBER of packets in one run: 100 050 and 262 200 small packets (past every round count a periodic action could hang on)
+            pkts = [framing.mk_packet(bytes([i & 0xFF, (i >> 8) & 0xFF])[:1 + i % 2], apid=i % 2048, seqcount=i % 16384) for i in range(task["n"])]
         else:
             body = bytes((i * 13 + 1) & 0xFF for i in range(65536))
             pkts = [framing.mk_packet(body[:-2] + i.to_bytes(2, "big"), apid=i % 2048, seqcount=i) for i in range(330)]
         stream = framing.build_stream(pkts, k)
-        base = {"big": kind, "k": k}
+        base = {"big": kind, "k": k, "n": task.get("n")}
         runs = [("bytes", None), ("bytesio", None), ("bytesio", 65536), ("bytesio", 1_000_003)]
+        if kind == "many":
+            runs = [("bytes", None), ("bytesio", 4096)]
         for src_kind, r in runs:
             src = stream if src_kind == "bytes" else CountingBytesIO(stream)
             with case_alarm(300):
@@ -632,8 +637,10 @@ def run(ctx):
     tally = fan_out(_task, tasks, jobs=ctx.jobs, seed=ctx.seed)
     big = [{"kind": "maxsize", "k": 0, "tier": ctx.tier}, {"kind": "maxsize", "k": 4, "tier": ctx.tier},
            {"kind": "trim21mb", "k": 0, "tier": ctx.tier}]
+    big.append({"kind": "many", "k": 0, "tier": ctx.tier, "n": 100_050})
     if not ctx.quick:
         big.append({"kind": "trim21mb", "k": 4, "tier": ctx.tier})
+        big.append({"kind": "many", "k": 3, "tier": ctx.tier, "n": 262_200})
     tally.merge(fan_out(_big_task, big, jobs=min(4, ctx.jobs or 4), mem_gib=None))
     import itertools
     long_seqs = [tuple(sq) for sq in itertools.product(range(3), repeat=4)]
@@ -654,7 +661,7 @@ def run(ctx):
                   "delivering <= 3 bytes per raw read and one over a device-like raw stream whose seek() always answers 0, read sizes None,1,7,L+1; BytesIO and real file that the caller closes / rewinds after taking exactly the packets they hold, then one more request (read sizes None,1,7,L+1, every trim literal); one BytesIO framed, then appended to / emptied and refilled with a longer stream, then framed again (every split of the sequence); "
                   "scripted socket with read sizes {None,1,2,3,5,6,7,8,L} x EVERY fragmentation (state-hashed DFS; also: no recv() while a complete record is delivered and unyielded); "
                   "both entry points; trim literal rewritten to {0,5,17} and reached for real with a 21 MB stream; "
-                  "max-size packet; stateless cross-check of the state merging on short streams; sized sources (bytes, BytesIO with 5 read sizes) additionally on "
+                  "max-size packet; 100 050 small packets in one run (bytes, BytesIO, socket); stateless cross-check of the state merging on short streams; sized sources (bytes, BytesIO with 5 read sizes) additionally on "
                   "every 4-packet sequence and on homogeneous/alternating sequences of 5..12 packets with prefix lengths 0,1,2,3,4,7, also with the trim literal rewritten to {0,5,17,40} so that the buffer is trimmed many times in one stream; "
                   "io.BytesIO vs real file handed over at positions {1, 6, k+7, L} (4-packet sequences, differential); gzip / bz2 / lzma files on disk for the "
                   "sequences of >= 8 packets (compressed size smaller than the stream)"),
@@ -672,7 +679,7 @@ def replay(case):
     pal = framing.palette_packets()
     with owned_clock():
         if "big" in case:
-            t = _big_task({"kind": case["big"], "k": case["k"], "tier": "thorough"})
+            t = _big_task({"kind": case["big"], "k": case["k"], "tier": "thorough", "n": case.get("n", 100_050)})
             return t.violations[0] if t.violations else None
         expected = [pal[i] for i in case["seq"]]
         k = case["k"]
